@@ -27,6 +27,24 @@ pub fn for_each_glob(rep: &Report, opts: &SpaceOpts, f: &(dyn Fn(&Expr, &Glob<'_
                     bump(&mut c, "skipped_panics", 1);
                     let _ = p;
                 }
+                // the partitioned glob is a transformed token tree, not a glob built from text:
+                // it is visited as a program of its own (its own automaton and its own answers)
+                // whenever a prefix was really removed and its displayed text describes it (the
+                // glob rebuilt from that text has the same program; C08 judges the others)
+                if let Ok((prefix, Some(post))) = guard(|| g.clone().partition()) {
+                    if !prefix.as_os_str().is_empty() {
+                        let ptext = post.to_string();
+                        if let (Ok(ast), Some(rebuilt)) = (syntax::parse(&ptext), model::build_ok(&ptext)) {
+                            if rebuilt.verif_program_text() == post.verif_program_text() {
+                                bump(&mut c, "partitioned_globs_visited", 1);
+                                let pe = Expr { text: ptext.clone(), ast, pass: "partition" };
+                                if guard(|| f(&pe, &post, &mut c)).is_err() {
+                                    bump(&mut c, "skipped_panics", 1);
+                                }
+                            }
+                        }
+                    }
+                }
             },
             Built::Err(_) => bump(&mut c, "rejected", 1),
             Built::Panic(_) => bump(&mut c, "skipped_panics", 1),
